@@ -9,6 +9,7 @@ C34 — Global and module function forms agree.
 -/
 import RsassModel.Glue.FnRegistryLemmas
 import RsassModel.Generated.FnRegistry
+import RsassModel.Glue.FnMinMax
 namespace C34
 open Glue.FnReg Generated.FnRegistry
 
@@ -125,6 +126,48 @@ theorem bind_errors :
     bind (V := Nat) ⟨[(['a'], none)], none⟩ ⟨[1, 2], []⟩ = .error .tooMany ∧
     bind (V := Nat) ⟨[(['a'], none), (['b'], none)], none⟩ ⟨[1], []⟩ = .error (.missing ['b']) := by
   refine ⟨rfl, rfl, rfl, rfl⟩
+
+end
+
+/-! ## min / max: the pair that disagrees by design (known finding C34-minmax-css-fallback) -/
+
+section
+open Glue.FnReg.MinMax
+
+/-- FULL STATEMENT (spec model: both forms strict): `max`/`min` and `math.max`/`math.min`
+agree on every argument list. -/
+theorem minmax_spec_agree (pref : Ordering) (l : List Num) :
+    globalExt mmSpec pref l = moduleExt pref l := rfl
+
+/-- PARTIAL (code as it is: the global form keeps incomparable numbers as a CSS call):
+the forms agree on every argument list whose numbers are pairwise comparable by Sass
+(same dimension, or unitless) — the explicit hypothesis that excludes the deviation. -/
+theorem minmax_asis_agree_partial (pref : Ordering) (l : List Num) (h : AllComparable l) :
+    globalExt mmAsIs pref l = moduleExt pref l := by
+  cases l with
+  | nil => rfl
+  | cons a r => exact walk_strict_irrelevant pref r a h
+
+/-- the hypothesis is satisfiable by a non-trivial list: `max(14cm, -63788, 2cm)` -/
+example : AllComparable [⟨14, 1, some 1⟩, ⟨-63788, 0, none⟩, ⟨2, 1, some 1⟩] := by
+  intro a ha b hb
+  simp only [List.mem_cons, List.mem_nil_iff, or_false] at ha hb
+  rcases ha with rfl | rfl | rfl <;> rcases hb with rfl | rfl | rfl <;> decide
+
+/-- REFUTATION of the full statement for the code as it is, on the registered witness
+`max(14cm, -63788, 403241%)`: the global form is kept as plain CSS, the module form is
+an incompatible-units error. -/
+theorem minmax_asis_disagree :
+    globalExt mmAsIs .gt [⟨14, 1, some 1⟩, ⟨-63788, 0, none⟩, ⟨403241, 2, none⟩] = .css ∧
+    moduleExt .gt [⟨14, 1, some 1⟩, ⟨-63788, 0, none⟩, ⟨403241, 2, none⟩] = .incompatible := by
+  decide
+
+/-- Numbers whose css dimensions are both known and different are an error in BOTH forms
+(`max(1px, 1s)`): the fallback is limited to what CSS itself might be able to compare. -/
+theorem minmax_known_css_dims_error :
+    globalExt mmAsIs .gt [⟨1, 1, some 1⟩, ⟨1, 2, some 2⟩] = .incompatible ∧
+    moduleExt .gt [⟨1, 1, some 1⟩, ⟨1, 2, some 2⟩] = .incompatible := by
+  decide
 
 end
 end C34
